@@ -7,7 +7,7 @@
                              (the list of members in creation order; every lookup finds exactly its member)
      every other line (C08): "ERR t=0" when the repaired model rejects the call (the call must be rejected and
                              leave no trace), "NOTRACE" otherwise (if the implementation rejects it, no trace)
-     what a mode does not judge is answered ANY. *)
+     what a mode does not judge is answered ANY (C03: NOCRASH — whatever a lookup answers, it must not crash). *)
 
 let oint_of_string_opt = int_of_string_opt
 let rec nat_of_int n = if n <= 0 then O else S (nat_of_int (n - 1))
@@ -497,7 +497,7 @@ let run_hist (mode : ostring) =
           if mode = "C03" then (try "OK " ^ chk_spec rep ptok kt.[0] with Refuse what -> "ERR " ^ what | Failure _ -> "ANY") else "ANY"
         | ["lchk"; h; sl] ->
           if mode = "C03" then (try "OK " ^ lchk_spec rep (oint_of_string h) (lslot_of_string sl) with Refuse what -> "ERR " ^ what | Failure _ -> "ANY") else "ANY"
-        | _ -> if mode = "C08" then (if is_err b then "ERR t=0" else "NOTRACE") else "ANY") in
+        | _ -> if mode = "C08" then (if is_err b then "ERR t=0" else "NOTRACE") else "NOCRASH") in
     if is_ub a then poisoned := true;
     a ^ " ## " ^ spec in
   (* run_file prints "<lineno> <answer>" *)
